@@ -15,7 +15,7 @@ RULES = {
     "C01": "Product-chain histories: before every multiply/*/hadamard/product() the operands' log-values at (D+1)(D+2)/2+1 generic points and bit-exact snapshots are recorded; afterwards result rows must equal lu[i]+lf[j] at i*R2+j (hadamard: broadcast row; product(): sum), operands bit-identical, I_coh on the result; twins under warm/evict/dup/update_full flips agree. " + _COMMON,
     "C11": "One model (prior + N linear-Gaussian observations, or a state-space model with T observations) executed under K schedules: permutation of the delivery order, route a/b per step or one-shot route c, faults (warm/dup/evict/restore) on the carried posterior between steps; judged against the dense numpy joint and against each other. A schedule is NON-TRIVIAL iff it is not the identity-order all-route-a baseline (permuted, or uses route b/c, or a fault fired). distinct_nontrivial counts distinct (model shape/class, permutation, routes, fault placement) signatures.",
     "C12": "Sub-batch twins: the workload runs in lock step on the batched roots and on root.slice(idx) with seeded idx (subset / permutation / repeats / negative entries); component maps follow the documented layouts (products i*R2+j, conditioning r*N+n, affine: batched side); observations compared through the map, objects compared with library slice of the primary result; update(idx,d) checked bit-exactly. A twin is NON-TRIVIAL iff some root index map is not the identity and at least one comparison ran. distinct_nontrivial counts distinct (op sequence, root index arrays) signatures.",
-    "C18": "Boundary twins: eager baseline vs J1 (jit whole), J2 (two jitted stages, objects as results and arguments), J3 (jit closure over eager objects + eager continuation), FD (flatten/unflatten, to_dict/from_dict restarts, optionally after a warming query), V (vmap over data axis), S (lax.scan with density carry). NON-TRIVIAL iff at least one object crossed a boundary (or a restore fired) and a downstream comparison ran. distinct_nontrivial counts distinct (op sequence, mode, cut points / fault placement) signatures.",
+    "C18": "Boundary twins: eager baseline vs J1 (jit whole), J2 (two jitted stages, objects as results and arguments), J3 (jit closure over eager objects + eager continuation), J4 (eagerly built, optionally warmed objects passed as jit arguments), FD (flatten/unflatten, to_dict/from_dict restarts, optionally after a warming query), V (vmap over a data axis and over the component axis), S (lax.scan with density carry). NON-TRIVIAL iff at least one object crossed a boundary (or a restore fired) and a downstream comparison ran. distinct_nontrivial counts distinct (op sequence, mode, cut points / fault placement) signatures.",
     "C15": "Representation twins: histories on specialised roots; perturbation swap_repr replaces a specialised slot by the general-class object with the same parameters (Diag->full, Identity->M=I,b=0, OneRank->g vv', Linear/Constant->Lambda=0, NN-control->set_control_variable(u)) before a seeded use; all observer outputs and exposed attributes must agree with the unswapped baseline. " + _COMMON,
     "C19": "Sample histories: densities reached through general histories; sample(key,n) with simulator-owned keys; later replays of the same (density,key,n); faults rekey (interleaved draws with other keys), warm, evict, restore and eager/jit flips. " + _COMMON,
     "C02": "History scenario: invariant I_mass (library evaluate_ln == numpy quadratic of public Lambda,nu,ln_beta; all integral variants == numpy closed form from Lambda; densities: mass 1 and independent normal log-density from public mu,Sigma; get_density/normalize == u - ln mass) on every measure/density a step creates or mutates, executed on clones so that the check itself never warms the object. " + _COMMON,
